@@ -73,6 +73,23 @@ def executable_lines(relfile, lo, hi):
     return lines
 
 
+def code_object_defined(spec):
+    """Is 'relative/file.py:qualname' a code object of the current tree?"""
+    relfile, _, qual = spec.partition(":")
+    try:
+        with open(os.path.join(REPO, relfile)) as f:
+            top = compile(f.read(), relfile, "exec")
+    except Exception:  # pylint: disable=broad-except
+        return False
+    stack = [top]
+    while stack:
+        co = stack.pop()
+        if getattr(co, "co_qualname", co.co_name) == qual:
+            return True
+        stack.extend(c for c in co.co_consts if hasattr(c, "co_code"))
+    return False
+
+
 def run_workers(pid, tier, seed, jobs, timeout):
     scratch = tempfile.mkdtemp(prefix="rv_%s_" % pid)
     procs = []
@@ -188,6 +205,11 @@ def do_check(pid, tier, seed, jobs):
             unreached.append("%s:%d" % (relfile, ln))
     must = getattr(prop, "MUST_REACH", [])
     missing = [q for q in must if q not in m["funcs"]]
+    # a code object that no longer exists in this tree (renamed / inlined by a refactoring)
+    # cannot be demanded; only one that is still defined and was never executed means that
+    # the workload lost its grip
+    gone = [q for q in missing if not code_object_defined(q)]
+    missing = [q for q in missing if q not in gone]
     if missing:
         inconclusive.append("anchored code never executed: %s" % missing)
 
@@ -235,6 +257,7 @@ def do_check(pid, tier, seed, jobs):
         "anchor_lines_unreached": unreached[:60],
         "must_reach": must,
         "must_reach_missing": missing,
+        "must_reach_no_longer_defined": gone,
         "known_findings_observed": {k: v[1] for k, v in seen.items()},
         "unknown_violation_mechs": {k: len(v) for k, v in by_mech.items()},
         "inconclusive_reasons": inconclusive,
